@@ -54,7 +54,9 @@ ChunksFrom(t, size, pointer, left) ==
     IF left = 0 THEN <<>>
     ELSE LET raw == pointer + size
              adv == {p \in raw..Len(t) : p >= Len(t) \/ ~IsCont(t[p + 1])}       \* 0-based pointer p: byte p+1
-             nextP == IF raw >= Len(t) THEN raw ELSE CHOOSE p \in adv : \A q \in adv : p <= q
+             np0 == IF raw >= Len(t) THEN raw ELSE CHOOSE p \in adv : \A q \in adv : p <= q
+             (* the two bytes of a CRLF line ending are kept together *)
+             nextP == IF np0 > 0 /\ np0 < Len(t) /\ t[np0] = "r" /\ t[np0 + 1] = LFb THEN np0 + 1 ELSE np0
          IN  IF nextP > Len(t)
              THEN <<SubSeq(t, pointer + 1, Len(t))>> \o [i \in 1..(left - 1) |-> <<>>]
              ELSE <<SubSeq(t, pointer + 1, nextP)>> \o ChunksFrom(t, size, nextP, left - 1)
